@@ -157,4 +157,27 @@ example : Valid exPs [] exOps := by
   simp only [exOps, Valid, VOp.Pre, VOp.spec, EOK, esz, elemCounts]
   decide +kernel
 
+/-- the remaining hypotheses of `history_offset_table_partial` for that list: well-formed, has a VaryingSize parameter,
+    takes the memmove path -/
+example : ListOK exPs ∧ isFixedOrPlain exPs = false ∧ (Vec.new exPs [0, 0, 0] 4 100 (fun _ => 0)).trivialReloc = true := by
+  refine ⟨⟨?_, by decide⟩, by decide, by decide⟩
+  intro p hp
+  simp only [exPs, List.mem_cons, List.mem_nil_iff, or_false] at hp
+  rcases hp with rfl | rfl | rfl
+  · exact ⟨⟨2, rfl⟩, by decide⟩
+  · exact ⟨⟨4, rfl⟩, by decide⟩
+  · exact ⟨⟨0, rfl⟩, by decide⟩
+
+/-- … and a list without VaryingSize with a history that erases in the middle (`FixedSize<AlignAs<u16,8>>`, `u8`; fixed
+    size 3) meets the hypotheses of `history_stride` -/
+def exFixPs : List Param := [⟨.fixed, 2, 8, {}⟩, ⟨.plain, 1, 1, {}⟩]
+def exFixOps : List VOp := [.emplace [[1, 2, 3], [7]], .emplace [[4, 5, 6], [8]], .emplace [[7, 8, 9], [9]], .erase 0, .reserve 5 0,
+  .emplace [[0, 0, 0], [1]], .eraseRange 1 2, .pop, .clear]
+
+example : ValidFixed exFixPs [3, 0] [] exFixOps ∧ isFixedOrPlain exFixPs = true := by
+  constructor
+  · simp only [exFixOps, ValidFixed, PreFixed, VOp.Pre, VOp.spec, EOK, esz, elemCounts]
+    decide +kernel
+  · decide
+
 end Cntgs.C01
